@@ -70,7 +70,8 @@ impl Kinematics for OPWKinematics {
     // The rotation of pose in this case is only approximate.
     fn inverse_continuing(&self, pose: &Pose, prev: &Joints) -> Solutions {
         if self.parameters.dof == 5 {
-            return self.inverse_intern_5_dof(pose, prev[5]);
+            // Same contract as for 6 DOF: normalized near previous, sorted, constraint compliant
+            return self.inverse_continuing_5dof(pose, prev);
         }
 
         let previous;
